@@ -169,6 +169,16 @@ def check (pid : String) (j : Json) : Except String Verdict := do
   if m.completed != n || r2 != n then mm := mm <|> some s!"{kind}: model completes {m.completed} lookups, impl {r2} of {n}"
   if modelWire m.s != wire then
     mm := mm <|> some s!"{kind}: requests on the wire: model {(modelWire m.s).length}, impl {wire.length}; first difference at {((modelWire m.s).zip wire).findIdx? (fun (a, b) => a != b)}"
+  -- C05: every lookup returns by its deadline (fetch timeout) plus scheduling slack, however long the transport is stalled
+  let slowest := jNatD o "slowestMs" 0
+  let fetch := jNatD j "fetchTimeoutMs" 1
+  if pid = "C05" && slowest > fetch + 1500 then
+    let k := jNatD o "slowestLookup" 0
+    -- the model's explanation: lookup `k` is the producer that found the channel full; it holds the client lock in `locked`
+    -- until the sender makes room, and the sender is in `Send` for as long as the transport is stalled
+    if k != r1 + 1 then mm := mm <|> some s!"{kind}: the slow lookup is number {k}; in the model the one that waits for room is number {r1 + 1}"
+    sf := some s!"C05.deadline_bounded: S16: lookup number {k} (fetch timeout {fetch} ms) returned after {slowest} ms: it found the request channel full while the transport was stalled and waited for room inside Watch — sendRequest has no deadline arm — holding the client lock and the manager lock, so every other lookup (cache hits included) waited behind it"
+    return { nontrivial := true, mismatch := m.err <|> mm, specfail := sf }
   -- specs on the observation alone
   let cds := wire.filter (fun q => q.rt = "cds")
   if cds.length != n + 1 then
